@@ -84,6 +84,18 @@ type coalescer struct {
 	closeOnce sync.Once
 	wg        sync.WaitGroup
 
+	// submitMu serialises close against in-flight submits: every submit holds
+	// the read lock for its whole duration, close takes the write lock after
+	// closing done (which wakes blocked submitters). Once closed is set no
+	// message can enter in any more, and only then is drain closed, telling the
+	// writer to flush whatever is buffered and exit. Without this a submit
+	// could win its race with close, put its message into the buffer after the
+	// writer had already exited, and the message would vanish without being
+	// sent or reported to the error handler.
+	submitMu sync.RWMutex
+	closed   bool
+	drain    chan struct{}
+
 	maxBatch   int
 	errHandler CoalescingErrorHandler
 }
@@ -100,6 +112,7 @@ func newCoalescer(dest string, nc *inet.Client, cfg coalescingConfig) *coalescer
 		netClient:  nc,
 		in:         make(chan *internalpb.RemoteMessage, maxBatch*4),
 		done:       make(chan struct{}),
+		drain:      make(chan struct{}),
 		maxBatch:   maxBatch,
 		errHandler: cfg.errHandler,
 	}
@@ -126,6 +139,12 @@ func newCoalescer(dest string, nc *inet.Client, cfg coalescingConfig) *coalescer
 //   - errCoalescerClosed if the coalescer is shut down while the caller is
 //     waiting (or before the call began).
 func (c *coalescer) submit(ctx context.Context, msg *internalpb.RemoteMessage) error {
+	c.submitMu.RLock()
+	defer c.submitMu.RUnlock()
+	if c.closed {
+		return errCoalescerClosed
+	}
+
 	// Pre-check shutdown so a submit after close returns immediately rather
 	// than racing with a context that has no deadline.
 	select {
@@ -157,7 +176,13 @@ func (c *coalescer) submit(ctx context.Context, msg *internalpb.RemoteMessage) e
 // close signals the writer goroutine to flush and exit, then blocks until
 // the goroutine returns. Safe to call multiple times.
 func (c *coalescer) close() {
-	c.closeOnce.Do(func() { close(c.done) })
+	c.closeOnce.Do(func() {
+		close(c.done)
+		c.submitMu.Lock()
+		c.closed = true
+		c.submitMu.Unlock()
+		close(c.drain)
+	})
 	c.wg.Wait()
 }
 
@@ -219,13 +244,18 @@ func (c *coalescer) run() {
 
 	for {
 		select {
-		case <-c.done:
-			// Drain anything still buffered and exit. Submit refuses new
-			// enqueues once done is closed, so the channel is a bounded
-			// set at this point.
-			drainReady()
-			flush()
-			return
+		case <-c.drain:
+			// Flush everything still buffered and exit. No submit can
+			// enqueue once drain is closed, so the channel is a bounded set
+			// at this point; it can hold several batches (its capacity is a
+			// multiple of maxBatch), so keep flushing until it is empty.
+			for {
+				drainReady()
+				if len(batch) == 0 {
+					return
+				}
+				flush()
+			}
 		case m := <-c.in:
 			batch = append(batch, m)
 			drainReady()
